@@ -138,7 +138,7 @@ func lenClass(n int) string {
 // ---- pooled packets never share backing memory while undisposed ----------------------------------------------------------
 
 type c04Live struct {
-	mu   sync.Mutex
+	mu     sync.Mutex
 	byBase map[uintptr]int // backing array base -> owner id
 }
 
